@@ -23,6 +23,12 @@ CHECKS = {
  'C13': dict(technique='runtime observation at the first decision of every betting round vs an independent opener model',
              text='Held on the generated executions: every judged round opening (blind/straddle/post layouts, stud up-card ties broken by suit, exposed-hand ties, all-in openers) equals the model\'s opener.',
              note='Rounds in which nobody can act expose no actor and are not judged.', ref='DESIGN.md §2 C13'),
+ 'C04': dict(technique='differential runtime check against an independent evaluator; exhaustive enumeration of every k-card subset in the thorough tier (order-isomorphism of rank classes + per-hand class membership + operator and rejection tiers)',
+             text='Thorough tier enumerates the complete finite input space (every 5-card subset of each deck, every 1-4 card badugi subset) and the class table decides all pairs at once; quick tier is a seeded 1-in-10 stride plus all small spaces. Exploration-level claim: agreement with our reference evaluator on everything enumerated.',
+             note='Trusted base: the ~100-line reference evaluator in vflib/ref/handrank.py encodes the rules of the statement.', ref='DESIGN.md §2 C04'),
+ 'C05': dict(technique='differential runtime check of from_game/from_game_or_none/get_hand/get_up_hand against brute force under each composition rule',
+             text='Held on >10^5 generated (hole, board) inputs per quick run (biased towards pairs, flushes, lows, no-low boards; several argument forms incl. one-shot iterators) and on sampled played states.',
+             note='Strength from the C04 reference evaluator; Greek hold\'em with exactly two hole cards.', ref='DESIGN.md §2 C05'),
 }
 PENDING_REASON = 'check not built yet in this revision (runtime monitor planned, see DESIGN.md §2); not claimed until it exists'
 
